@@ -471,6 +471,7 @@ func validate(rootText string, typeTexts map[string]string, order []string, doc 
 // features of the schema reachable from the root (through references).
 type feat struct {
 	refs, multiRef, nullable, nullableRef, recursive bool
+	emptyRef                                         bool // a reference position without any alternative (see emptyAlts)
 	nodes                                            int
 	adds                                             map[string]bool // additionalProperties modes in use
 	allOf, allOf2                                    bool            // an object with allOf / with two base types
@@ -504,6 +505,9 @@ func (f *feat) walk(n *Node, types map[string]*Node, open map[string]bool, done 
 	switch n.Kind {
 	case "ref":
 		f.refs = true
+		if !n.Nullable && emptyAlts(types, n.Names) {
+			f.emptyRef = true
+		}
 		if len(n.Names) > 1 {
 			f.multiRef = true
 		}
@@ -521,6 +525,9 @@ func (f *feat) walk(n *Node, types map[string]*Node, open map[string]bool, done 
 		if n.Add != "" {
 			f.adds[addMode(n.Add)] = true
 			if strings.HasPrefix(n.Add, "@") {
+				if emptyAlts(types, []string{n.Add[1:]}) {
+					f.emptyRef = true
+				}
 				f.visitType(n.Add[1:], types, open, done)
 			}
 		}
@@ -539,9 +546,40 @@ func (f *feat) walk(n *Node, types map[string]*Node, open map[string]bool, done 
 	}
 }
 
+// emptyAlts reports whether the reference `@n1 | @n2 | …` expands to no alternative at all: following root-level
+// references only, every name ends in a cycle of pure references (@a = @a; @a = @b, @b = @a). Nothing inhabits such a
+// position, yet Check accepts the table when the position is an array item, additionalProperties or a property
+// inside a named type (known finding K-C09-cycle). The validator then builds an empty validator list for the
+// position and feeds the value's events to the parent validator, so a few documents are accepted that no reading of
+// the schema admits; the model (least fixpoint: no alternative) rejects them. Differences on tables with such a
+// position reachable from the root carry the class K-C09-cycle.
+func emptyAlts(types map[string]*Node, names []string) bool {
+	seen := map[string]bool{}
+	todo := append([]string{}, names...)
+	for len(todo) > 0 {
+		nm := todo[len(todo)-1]
+		todo = todo[:len(todo)-1]
+		if seen[nm] {
+			continue
+		}
+		seen[nm] = true
+		switch t := types[nm]; t.Kind {
+		case "ref":
+			if t.Nullable {
+				return false // the literal null is an alternative
+			}
+			todo = append(todo, t.Names...)
+		default:
+			return false
+		}
+	}
+	return true
+}
+
 type oneCase struct {
 	line, impl, input string
 	nontrivial        bool
+	class             string // known-finding class the table lies in, if the generator can tell
 	stats             []string
 }
 
@@ -605,6 +643,11 @@ func oneTable(seed int64) tableResult {
 	}
 	f := feat{adds: map[string]bool{}}
 	f.walk(root, types, map[string]bool{}, map[string]bool{})
+	class := ""
+	if f.emptyRef {
+		class = "K-C09-cycle"
+		res.stats = append(res.stats, "table_uninhabited_alias_cycle_reachable")
+	}
 	res.stats = append(res.stats, "tables_checked", "root_"+root.Kind)
 	if objectTypes {
 		res.stats = append(res.stats, "tables_checked_all_types_objects")
@@ -659,6 +702,7 @@ func oneTable(seed int64) tableResult {
 			// an object with allOf is reachable from the root
 			nontrivial: f.allOf,
 			stats:      st,
+			class:      class,
 		})
 	}
 	return res
@@ -695,7 +739,7 @@ func Run(args []string) {
 			}()
 		}
 		wg.Wait()
-		var reqs, impl, inputs []string
+		var reqs, impl, inputs, classes []string
 		var probes, probeCodes, probeInputs []string
 		for _, res := range results {
 			if res.probe != "" {
@@ -715,9 +759,14 @@ func Run(args []string) {
 				reqs = append(reqs, c.line)
 				impl = append(impl, c.impl)
 				inputs = append(inputs, c.input)
+				classes = append(classes, c.class)
 			}
 		}
-		rep.Compare(reqs, impl, inputs, 16)
+		for i, m := range vh.AskModelSharded(reqs, 16) {
+			if impl[i] != m {
+				rep.AddDiff(vh.Diff{Input: inputs[i], Impl: impl[i], Model: m, Class: classes[i], Note: reqs[i]})
+			}
+		}
 		for i, m := range vh.AskModelSharded(probes, 16) {
 			if m == "CHECKERR" {
 				rep.Stat("check_failed_model_expansion_fails_too")
